@@ -1,5 +1,5 @@
 """C14 - JSON snapshots are canonical and lossless."""
-import json, random
+import json, base64, random
 import core, findings, docs
 from core import World, hx, Line, parse_fs
 from gen import Gen, mode_line, cfg_line
@@ -91,6 +91,16 @@ def make_world(g, tag):
         if ms and ms[0].endswith('x'):
             w.add('end %d' % (100 + i))
         w.add('end %d' % i)
+    # Go values of NAMED string / byte-slice types (type Status string, net.IP, type Body []byte): they are Go
+    # values, so the stored document is their JSON encoding (a string), whatever their content looks like
+    named = []
+    for k in range(r.randint(0, 2)):
+        content = r.choice(['active', '123', '{"b":1,"a":2}', 'true', 'null', '', '[1, 2]', 'say "hi"', ' x ', '1e3', 'a\nb'])
+        form = r.choice(['vnstr', 'vnbytes'])
+        w.add('begin %d %s' % (95 + k, hx(b'TestNamed%d' % k)))
+        named.append((w.add('%s 1 %d %s %s' % (kind, 95 + k, form, hx(content))), k, form, content))
+        w.add('end %d' % (95 + k))
+
     # malformed input: one failure, nothing written
     before = w.add('fsdump')
     bad = r.choice(BAD)
@@ -105,6 +115,24 @@ def make_world(g, tag):
     w.add('end 90')
 
     def oracle(line, raw, ww):
+        fs0 = parse_fs(raw)
+        for i, k, form, content in named:
+            res = Line(ww.impl[i])
+            want = content if form == 'vnstr' else base64.b64encode(content.encode()).decode()
+            if [e for e, _ in res.events] != ['L']:
+                return 'a Go value of a named %s type (%r) was not recorded: %r' % ('string' if form == 'vnstr' else '[]byte', content, [(e, x[:40]) for e, x in res.events])
+            if kind == 'json':
+                pp = [x for x in fs0 if x.endswith(b'/f.snap')]
+                body = dict(parse_snap(fs0[pp[0]]) or []).get(b'TestNamed%d - 1' % k) if pp else None
+            else:
+                bodies = [fs0[x] for x in fs0 if b'/TestNamed%d_' % k in x]
+                body = bodies[0] if bodies else None
+            try:
+                got = json.loads(body.decode())
+            except Exception as e:
+                return 'named-type Go value %r stored as %r' % (content, body)
+            if got != want:
+                return 'named-type Go value %r is stored as %r, not as the JSON string of its content' % (content, body[:60])
         for i in idx:
             if any(k == 'X' for k, _ in Line(ww.impl[i]).events):
                 return 'op %d: the []byte passed by the caller was modified by the call (a second use of the same slice would fail)' % i
